@@ -173,12 +173,61 @@ def spec_C12(lines, ghost=None):
     return bad
 
 def spec_C14(lines, ghost=None):
-    """An insertion reaction names an entity that exists (the insertion really happened)."""
+    """An insertion that did not happen (entity gone when the insert command is applied — the model marks the action's
+    bracket with `ghost insnoop`) schedules no reaction: the same bracket of the implementation trace contains no
+    `applied` line."""
     bad = []
+    noop = set(); cur = []
+    for l in (ghost or []):
+        if l.startswith("m+ "): cur.append(l[3:])
+        elif l.startswith("m- "):
+            if cur: cur.pop()
+        elif l.startswith("ghost insnoop") and cur: noop.add(cur[-1])
+    if not noop: return bad
+    cur = []
     for i, l in enumerate(lines):
-        if l.startswith("body "):
-            o = parse_obs(tok(l)[3:])
-            if "!" in o.get("ins", ""): bad.append("line %d: insertion reaction for an entity that does not exist: %s" % (i, o.get("ins")))
+        if l.startswith("m+ "): cur.append(l[3:])
+        elif l.startswith("m- "):
+            if cur: cur.pop()
+        elif l.startswith("applied ") and cur and cur[-1] in noop:
+            bad.append("line %d: insertion reaction scheduled although the component was not inserted (action %s): %s" % (i, cur[-1], l))
+    return bad
+
+def spec_C17(lines, ghost=None):
+    """syscall family: every call runs once with its input and returns input*100+state; state persists per key across
+    non re-entrant calls and is independent between keys; a re-entered syscall / named_syscall key gets fresh state and
+    the outer-most state is what persists; spawned systems that are missing, despawned or running return an error
+    without running; queued writes are applied before the call returns."""
+    bad = []; stack = []; stored = {}; alive = set(); pending_writes = []
+    for i, l in enumerate(lines):
+        t = tok(l)
+        if t[0] != "sc": continue
+        if t[1] == "spawned": alive.add(t[2]); stored[t[2]] = 0
+        elif t[1] == "despawned": alive.discard(t[2])
+        elif t[1] == "enter":
+            key = t[2]; r = int(t[3][1:]); x = int(t[4][1:])
+            reentrant = any(e[0] == key for e in stack)
+            if key[0] == "s":
+                if key not in alive: bad.append("line %d: %s ran although it does not exist" % (i, key))
+                if reentrant: bad.append("line %d: spawned system %s ran while running" % (i, key))
+            # (same-key re-entrancy of syscall / named_syscall is the crate's documented hazard: the state such a
+            #  call sees is unspecified; only the outer-most call's state persists, which is what is checked)
+            if not reentrant and r != stored.get(key, 0):
+                bad.append("line %d: %s entered with state %d, expected %d" % (i, key, r, stored.get(key, 0)))
+            stack.append((key, r, x, reentrant))
+        elif t[1] == "ret":
+            key = t[2]; v = int(t[3])
+            if stack and stack[-1][0] == key:
+                k, r, x, re_ = stack.pop()
+                if v != x * 100 + r: bad.append("line %d: %s returned %d for input %d state %d" % (i, key, v, x, r))
+                if not re_: stored[key] = r + 1
+            # a `ret` without an open enter is the report line of a queued / top-level call: already matched
+        elif t[1] == "err":
+            key = t[2]
+            if key[0] != "s": bad.append("line %d: %s returned an error" % (i, key))
+            elif key in alive and not any(e[0] == key for e in stack):
+                bad.append("line %d: call to live idle spawned system %s failed" % (i, key))
+    if stack: bad.append("unbalanced enter/ret: %r" % (stack,))
     return bad
 
 def spec_C15(lines, ghost=None):
@@ -189,7 +238,7 @@ def spec_none(lines, ghost=None): return []
 SPECS = {
     "C01": [], "C02": [spec_C02], "C03": [spec_expect], "C04": [spec_C04, spec_expect], "C05": [spec_C05],
     "C06": [], "C07": [], "C08": [], "C09": [spec_C02], "C10": [], "C11": [spec_C11, spec_C02],
-    "C12": [spec_C12, spec_expect], "C13": [spec_C13], "C14": [spec_C14], "C15": [], "C16": [spec_expect], "C17": [],
+    "C12": [spec_C12, spec_expect], "C13": [spec_C13], "C14": [spec_C14], "C15": [], "C16": [spec_expect], "C17": [spec_C17],
     "C18": [spec_C05, spec_C14],
 }
 
